@@ -93,6 +93,7 @@ func init() {
 	extraRules["C04"] = func(c *Ctx) {
 		CheckMustWrite(c, "C04")
 		ErrDrop(c, "default", []string{"group", "pairing", "sign", "share", "proof", "shuffle", "encrypt", "internal", "util/encoding"})
+		LenGuard(c, "default", []string{"group", "pairing", "sign", "share", "proof", "shuffle", "encrypt", "internal", "util/encoding"})
 	}
 	extraRules["C10"] = func(c *Ctx) { WriterDiscipline(c, "default", "C10"); CheckMustWrite(c, "C10") }
 	extraRules["C11"] = func(c *Ctx) { WriterDiscipline(c, "default", "C11"); CheckMustWrite(c, "C11") }
